@@ -7,9 +7,18 @@ NOTES = ("Technique family: runtime monitoring. Every check builds an importable
          "edits under /repo/python or /repo/proto at all. Exit 0 held / 1 VIOLATION / 2 INCONCLUSIVE. "
          "VERIF_SEED and VERIF_TIER are honoured; GTIRB_REPO overrides /repo for mutant self-tests.")
 ENGINES = [
-    {"name": "gtmon", "path": "gtmon/", "serves_properties": [], "kind_free_text":
-     "Python runtime-monitoring framework: working-tree build, seeded workload engines, reference models/oracles, "
-     "evidence writer, known-findings classifier"},
+    {"name": "gtmon-core", "path": "gtmon/runner.py", "serves_properties": ["C%02d" % i for i in range(1, 20)], "kind_free_text":
+     "working-tree build (gtmon/build.py + mini-protoc), worker fan-out, CPU-time guards, merge, known-findings classifier, evidence writer, replay"},
+    {"name": "spec-engine", "path": "gtmon/spec.py", "serves_properties": ["C01", "C02", "C09", "C17", "C18"], "kind_free_text":
+     "pure-data IR specs, public-API builder with random construction routes, canonical snapshot, interchange contract table, foreign-message assembly, perturbation catalogue"},
+    {"name": "ownership-engine", "path": "gtmon/ownership.py", "serves_properties": ["C03", "C04", "C10", "C16"], "kind_free_text":
+     "lock-step forest/attribute model over several IRs with a world observer (gtmon/world.py) after every public operation; built-in list/set/dict mirrors (gtmon/mapping_engine.py)"},
+    {"name": "layout-engine", "path": "gtmon/layout.py", "serves_properties": ["C05", "C06", "C12", "C13"], "kind_free_text":
+     "pure-data layout model, scan oracles with must<=got<=may sandwich, probes through every lookup at every scope, replica comparison under lookup schedules, lazy-tree path classification"},
+    {"name": "codec-engine", "path": "gtmon/codecmon.py", "serves_properties": ["C07", "C08", "C14", "C15"], "kind_free_text":
+     "AuxData type/value generators, independent reference codec and type-name recogniser, Java cross-check driver (java/Xcheck.java)"},
+    {"name": "selftest", "path": "tools/selftest", "serves_properties": ["C%02d" % i for i in range(1, 20)], "kind_free_text":
+     "sensitivity / false-alarm self-validation: ~80 mutants must be caught, 12 behaviour-preserving refactorings must stay silent, 51 independently seeded changes under seeded/ (tools/seed_matrix)"},
 ]
 CHECKS = {
     "C03": {
